@@ -213,6 +213,14 @@ def run_config(chk, facts):
     chk.floor("C06-d", "head-specific accesses in build()", nd, 4)
 
     # ---- C06-e -----------------------------------------------------------------------------------
+    # the checksum helper (today `checksum_and_padding`) by shape: a function of the font_builder module that build() calls
+    # and that returns a pair of u32
+    CP = set()
+    for _bb, _t in bd.calls():
+        _cb = facts.body(_t.callee, _fuzzy=False) if _t.callee.startswith("write_fonts::font_builder::") else None
+        if _cb is not None and _cb.locals and _cb.locals[0][0].replace(" ", "") == "(u32,u32)":
+            CP.add(_t.callee)
+    from ..guards import expr_mentions_call as _emc
     chk.rule("C06-e", "data flow: each directory record is built from (tag, checksum_and_padding(data), running position, data.len()): "
                       "no case-dependent offset or length")
     recs = [(bb, t) for bb, t in bd.calls() if t.callee.endswith("font_builder::TableRecord::new")]
@@ -240,7 +248,7 @@ def run_config(chk, facts):
             pos_ok = good
         len_e = strip_casts(args[3]) if len(args) == 4 else ("?",)
         len_ok = len_e[0] == "call" and len_e[1].endswith("::len")
-        sum_ok = len(args) == 4 and "checksum_and_padding" in show(bd, args[1])
+        sum_ok = len(args) == 4 and bool(CP) and _emc(args[1], tuple(CP))
         chk.ob("C06-e", f"TableRecord::new(tag, {show(bd, args[1])[:30]}.., {show(bd, args[2])[:20]}, {show(bd, args[3])[:24]}..)",
                pos_ok and len_ok and sum_ok, key=f"{bd.path}|record-args", file=bd.file, line=t.line, fn=bd.path,
                detail="a directory record whose offset is not the running position (or whose length is not the data length, or whose "
@@ -251,7 +259,7 @@ def run_config(chk, facts):
                       "vector that is folded into the whole-file checksum on every trip (the push dominates the loop's back edges); "
                       "the directory's own checksum is pushed once after the loop; the fold runs over that vector")
     from ..loops import natural_loops
-    cps = [(bb, t) for bb, t in bd.calls() if t.callee.endswith("font_builder::checksum_and_padding")]
+    cps = [(bb, t) for bb, t in bd.calls() if t.callee in CP]
     chk.anchor("C06-f", "checksum_and_padding call in build()", cps)
     loops = natural_loops(bd)
     n_f = 0
@@ -269,7 +277,7 @@ def run_config(chk, facts):
                 # the pushed value is (a projection of) the call's result itself, not something built from it
                 while e[0] == "proj":
                     e = e[1]
-                if e[0] == "call" and e[1].endswith("font_builder::checksum_and_padding"):
+                if e[0] == "call" and e[1] in CP:
                     pushes.append((bb, t))
         ok = any(all(bd.dominates(pb, u) for u in us) for pb, _ in pushes)
         n_f += 1
